@@ -5,8 +5,9 @@
 From Coq Require Import List Arith Lia Permutation QArith.
 Local Open Scope nat_scope.
 Import ListNotations.
-From PP Require Import Model.C27 Model.C27_spec.
-From PP Require Import Proofs.C27 Proofs.C27_mortar Proofs.C27_cache Proofs.C27_bnd Proofs.C27_dense.
+From PP Require Import Model.C27 Model.C27_spec Model.C27_ext.
+From PP Require Import Proofs.C27 Proofs.C27_mortar Proofs.C27_cache Proofs.C27_bnd Proofs.C27_dense
+     Proofs.C27_ext Proofs.C27_ext2 Proofs.C27_ext3.
 
 (* expand_indices_nd(arange(n), nd) enumerates 0 .. n*nd-1 for every nd >= 1 *)
 Theorem C27_expand_indices :
@@ -206,6 +207,115 @@ Theorem C27_indicator_entries :
 Proof. exact get_indicator. Qed.
 Print Assumptions C27_indicator_entries.
 
+(* ---------------------------------------------------------------- extension *)
+(* the conformity flags computed by MortarProjections.__init__ say exactly: every stored
+   weight of the integrating AND the averaging mortar->primary (resp. ->secondary) matrices
+   of every listed interface is within 1e-10 + 1e-5 of 1 *)
+Theorem C27_conformity_flags_sound :
+  forall sds ifs nd loc,
+    (mp_conf_p (mp_init sds ifs nd loc) = true
+     <-> all_within_tol (loc M2P_int) /\ all_within_tol (loc M2P_avg)) /\
+    (mp_conf_s (mp_init sds ifs nd loc) = true
+     <-> all_within_tol (loc M2S_int) /\ all_within_tol (loc M2S_avg)).
+Proof. exact conformity_flags_sound. Qed.
+Print Assumptions C27_conformity_flags_sound.
+
+(* the eight cached accessors WITHOUT guard, any inputs, any call history: every call
+   answers with the construction of its own flavour, or -- only if its side is classified
+   as conforming -- with the construction of the twin flavour (int <-> avg, same direction).
+   In particular on a non-conforming side the call order never matters. *)
+Theorem C27_mortar_cached_calls :
+  forall sds ifs nd loc ks,
+    let mp := mp_init sds ifs nd loc in
+    Forall2 (fun k o => o = answer mp k \/ (side_conf mp k = true /\ o = answer mp (twin k)))
+            ks (mp_run mp ks).
+Proof. exact cached_accessors_unguarded. Qed.
+Print Assumptions C27_mortar_cached_calls.
+
+Theorem C27_mortar_first_call_own :
+  forall sds ifs nd loc k ks,
+    hd_error (mp_run (mp_init sds ifs nd loc) (k :: ks))
+    = Some (answer (mp_init sds ifs nd loc) k).
+Proof. exact first_call_own. Qed.
+Print Assumptions C27_mortar_first_call_own.
+
+(* BoundaryProjection for ARBITRARY lists of distinct grids (boundary grid present or not):
+   the rows are the blocks of [stale_blocks] -- a listed grid of dimension > 0 without
+   boundary grid repeats the block of the previous iteration, UnboundLocalError if there is
+   none -- so the stale mat_loc is part of the characterisation, not excluded by a guard *)
+Theorem C27_boundary_general :
+  forall bgs nd,
+    1 <= nd -> Forall wf_grid (map bg_grid bgs) -> NoDup (map gid (map bg_grid bgs)) ->
+    Forall bnd_in_range bgs ->
+    subdomain_to_boundary bgs nd
+    = match stale_blocks (map bg_grid bgs) nd bgs None with
+      | Some cs => Ok (selection (total nfaces (map bg_grid bgs) nd) (concat cs))
+      | None => Err UnboundErr
+      end.
+Proof. exact bp_projection_general. Qed.
+Print Assumptions C27_boundary_general.
+
+(* ... and with a stale block claim (4) fails: the repeated rows make
+   subdomain_to_boundary o boundary_to_subdomain differ from the identity (only reachable
+   with a grid that is not in the md-grid) *)
+Theorem C27_boundary_stale_refuted :
+  exists bgs nd S,
+    NoDup (map gid (map bg_grid bgs)) /\ Forall wf_grid (map bg_grid bgs) /\
+    subdomain_to_boundary bgs nd = Ok S /\
+    mul S (transpose S) <> Ok (identity (nr S)).
+Proof. exact boundary_stale_refuted. Qed.
+Print Assumptions C27_boundary_stale_refuted.
+
+(* Trace (scalar): the per-grid trace operators placed at (face offset, cell offset) of the
+   grid in the list, i.e. at the offsets of the face / cell projections; any list of
+   distinct grids, the empty list included *)
+Theorem C27_trace_blocks :
+  forall sds locs,
+    Forall wf_grid sds -> NoDup (map gid sds) -> length sds = length locs ->
+    Forall (diag_fit nfaces ncells 1) (combine sds locs) ->
+    trace_op sds 1 locs
+    = XOk (mkM (total nfaces sds 1) (total ncells sds 1)
+               (placed_diag nfaces ncells sds 1 (combine sds locs))).
+Proof. exact trace_blocks_placed. Qed.
+Print Assumptions C27_trace_blocks.
+
+Theorem C27_trace_vector_not_implemented :
+  forall sds nd locs d,
+    sds <> [] -> nd <> 1 -> cell_projections sds nd = Ok d -> trace_op sds nd locs = XNotImpl.
+Proof. exact trace_vector_not_implemented. Qed.
+Print Assumptions C27_trace_vector_not_implemented.
+
+(* Divergence (any dim): the per-grid divergences placed at (cell offset, face offset) *)
+Theorem C27_divergence_blocks :
+  forall sds nd locs,
+    sds <> [] -> length sds = length locs -> NoDup (map gid sds) ->
+    Forall (diag_fit ncells nfaces nd) (combine sds locs) ->
+    exists M, divergence_op locs = Ok M /\
+              nr M = total ncells sds nd /\ nc M = total nfaces sds nd /\
+              ents M = placed_diag ncells nfaces sds nd (combine sds locs).
+Proof. exact divergence_blocks. Qed.
+Print Assumptions C27_divergence_blocks.
+
+(* error branches: Divergence of an empty list (np.concatenate of nothing), accessor called
+   with something that is not a list *)
+Theorem C27_divergence_empty : divergence_op [] = Err ValueErr.
+Proof. exact divergence_empty. Qed.
+Print Assumptions C27_divergence_empty.
+
+Theorem C27_nonlist_rejected : forall r, accessor_arg false r = Err ValueErr.
+Proof. exact nonlist_rejected. Qed.
+Print Assumptions C27_nonlist_rejected.
+
+(* soundness of the comparison the execution tie evaluates: when [mat_eqb] answers true the
+   two coordinate lists denote the same matrix (equal shapes, equal dense entries with
+   duplicate coordinates summed) *)
+Theorem C27_tie_comparison_sound :
+  forall A B,
+    mat_eqb A B = true ->
+    nr A = nr B /\ nc A = nc B /\ forall i j, Qeq (get A i j) (get B i j).
+Proof. exact mat_eqb_sound. Qed.
+Print Assumptions C27_tie_comparison_sound.
+
 (* ---------------------------------------------------------------- non-vacuity *)
 (* a 2-D grid, two fracture grids and their 0-d intersection, vector quantity (nd = 2),
    request in a different order than the constructor list *)
@@ -284,3 +394,51 @@ Proof.
   - cbn. repeat constructor; cbn; intuition lia.
   - reflexivity.
 Qed.
+
+(* a 1-d grid (2 cells, 3 faces) after a point grid: trace and divergence blocks *)
+Example C27_nonvacuous_trace_divergence :
+  let g0 := mkG 5 0 1 0 in let g1 := mkG 1 1 2 3 in
+  let T := [mkM 0 1 []; mkM 3 2 [(0, 0, 1%Q); (2, 1, 1%Q)]] in
+  let D := [mkM 1 0 []; mkM 2 3 [(0, 0, (-1)%Q); (0, 1, 1%Q); (1, 1, (-1)%Q); (1, 2, 1%Q)]] in
+  Forall (diag_fit nfaces ncells 1) (combine [g0; g1] T) /\
+  Forall (diag_fit ncells nfaces 1) (combine [g0; g1] D) /\
+  trace_op [g0; g1] 1 T = XOk (mkM 3 3 [(0, 1, 1%Q); (2, 2, 1%Q)]) /\
+  divergence_op D = Ok (mkM 3 3 [(1, 0, (-1)%Q); (1, 1, 1%Q); (2, 1, (-1)%Q); (2, 2, 1%Q)]).
+Proof.
+  cbv zeta. split; [|split; [|split]]; try reflexivity.
+  - constructor; [|constructor; [|constructor]]; unfold diag_fit; cbn;
+      repeat split; repeat constructor.
+  - constructor; [|constructor; [|constructor]]; unfold diag_fit; cbn;
+      repeat split; repeat constructor.
+Qed.
+
+(* a grid without boundary grid listed second: its block repeats the first grid's block *)
+Example C27_nonvacuous_stale :
+  let bgs := [mkB (mkG 0 1 2 3) (Some [0; 2]); mkB (mkG 7 2 2 7) None] in
+  Forall bnd_in_range bgs /\
+  stale_blocks (map bg_grid bgs) 1 bgs None = Some [[0; 2]; [0; 2]].
+Proof.
+  cbv zeta. split; [|reflexivity].
+  constructor; [|constructor; [|constructor]]; intros bnd H; cbn in H; try discriminate H.
+  injection H as <-. repeat constructor.
+Qed.
+
+(* the twin answer really occurs: conforming side, different flavours *)
+Example C27_nonvacuous_twin_answer :
+  let loc := fun k => match k with
+                      | M2P_int => [mkM 16 1 [(5, 0, 1%Q)]]
+                      | M2P_avg => [mkM 16 1 [(5, 0, (999999 # 1000000)%Q)]]
+                      | _ => [] end in
+  let mp := mp_init [mkG 0 2 4 16] [mkI 0 0 1 1 1 [1]] 1 loc in
+  side_conf mp M2P_avg = true /\
+  nth_error (mp_run mp [M2P_int; M2P_avg]) 1 = Some (answer mp (twin M2P_avg)) /\
+  answer mp M2P_avg <> answer mp (twin M2P_avg).
+Proof.
+  cbv zeta. split; [reflexivity|]. split; [reflexivity|].
+  vm_compute. intro H. discriminate H.
+Qed.
+
+Example C27_nonvacuous_comparison :
+  mat_eqb (mkM 2 2 [(0, 1, (1 # 2)%Q); (1, 0, 1%Q); (0, 1, (1 # 2)%Q)])
+          (mkM 2 2 [(1, 0, 1%Q); (0, 1, 1%Q); (1, 1, 0%Q)]) = true.
+Proof. reflexivity. Qed.
